@@ -44,7 +44,8 @@ def run(pid, tier, seed, procs=None):
     step_jobs = []
     for sp in step_specs:
         step_jobs += jobs.expand(sp, mir, seed)
-    hist_jobs = [{'mir': mir, 'kind': k, 'template': t, 'capacity': cap, 'seed': seed, 'timeout_ms': cfg['timeout_ms'], 'tags': plan.tags_for(pid)}
+    hist_jobs = [{'mir': mir, 'kind': k, 'template': t, 'capacity': cap, 'seed': seed, 'timeout_ms': cfg['timeout_ms'], 'tags': plan.tags_for(pid),
+                  'max_s': 600 if tier == 'quick' else 3600}
                  for k, t, cap in plan.histories_for(pid, tier)]
     lemma_jobs = [{'kind': k, 'N': N} for k in ('map', 'key')] if pid == 'C02' else []
     audit = None
@@ -58,11 +59,20 @@ def run(pid, tier, seed, procs=None):
     step_res = [r for k, r in results if k == 'step']
     hist_res = [r for k, r in results if k == 'hist']
     lemmas = [x for k, r in results if k == 'lemma' for x in r]
+    # translator validation: random concrete histories through the MIR executor and the native crate, complete final arenas compared
+    from .history import validate_translator
+    tv = {'validated': 0, 'mismatches': []}
+    for kind in sorted({k for k, _ in plan.steps_for(pid)}):
+        ok, bad = validate_translator(jobs.program(mir), kind, seed, 4 if tier == 'quick' else 20, 14)
+        tv['validated'] += ok
+        tv['mismatches'] += bad[:2]
+    audit = dict(audit or {}, translator_validation=tv)
     out = finish(pid, tier, seed, t0, mirhash, mir_s, N, cfg, step_res, hist_res, lemmas, audit)
     if out.get('unconfirmed') and tier != 'escalate':
         # a step counterexample that no history of the tier's depth reproduces: search deeper histories before giving up
         seen = {(j['kind'], tuple(j['template']), j.get('capacity', 0)) for j in hist_jobs}
-        extra = [{'mir': mir, 'kind': k, 'template': t, 'capacity': cap, 'seed': seed, 'timeout_ms': cfg['timeout_ms'], 'tags': plan.tags_for(pid)}
+        extra = [{'mir': mir, 'kind': k, 'template': t, 'capacity': cap, 'seed': seed, 'timeout_ms': cfg['timeout_ms'], 'tags': plan.tags_for(pid),
+                  'escalation': True, 'max_s': 180}
                  for k, t, cap in plan.histories_for(pid, 'escalate') if (k, tuple(t), cap) not in seen]
         kinds = {k for k, _ in out['unconfirmed']}
         extra = [j for j in extra if j['kind'] in kinds]
@@ -99,7 +109,10 @@ def finish(pid, tier, seed, t0, mirhash, mir_s, N, cfg, step_res, hist_res, lemm
     mine = lambda tag: any(tag.startswith(t) for t in tags) or tag.startswith('C10:')     # a crash inside the property's own harness violates it too
     agg = jobs.merge_results(step_res)
     inconclusive = []
-    if audit and audit['offending']:
+    tv = (audit or {}).get('translator_validation')
+    if tv and tv['mismatches']:
+        inconclusive.append(f'translator validation: MIR executor and native crate disagree on a concrete history: {json.dumps(tv["mismatches"][0])[:600]}')
+    if audit and audit.get('offending'):
         inconclusive.append(f'cleanup path touches non-local state (unwinding after a callback panic is not modelled): {audit["offending"][:2]}')
     for l in lemmas:
         if l['result'] != 'unsat':
@@ -233,7 +246,7 @@ def finish(pid, tier, seed, t0, mirhash, mir_s, N, cfg, step_res, hist_res, lemm
         'coverage': {
             'states': max(1, paths + hist_paths),
             'transitions': max(1, obligations + hist_obl),
-            'traces_validated_against_impl': len(confirmed) + len(unconfirmed_hist),
+            'traces_validated_against_impl': len(confirmed) + len(unconfirmed_hist) + (tv['validated'] if tv else 0),
             'samples': samples[:8] or [{'note': 'no feasible path'}],
             'explanation': 'states = feasible symbolic paths (each covers every arena/argument valuation satisfying its path condition); '
                            'transitions = obligations discharged by the solver (memory-safety/panic/unwinding obligations + tagged post-conditions)',
